@@ -261,10 +261,11 @@ func c18MakeTask(t *tape.Tape, p *c18Pool) c18Task {
 		return c18Task{fmt.Sprintf("decode->Renderer->vec.Rasterizer %dx%d", w, h) + suffix, func() string {
 			img := image.NewRGBA(image.Rect(0, 0, w, h))
 			vz := vec.NewRasterizer(img)
+			tz := &world.TameRaster{Rasterizer: vz, Limit: 50000}
 			var r render.Renderer
-			r.SetRasterizer(vz, img.Bounds())
+			r.SetRasterizer(tz, img.Bounds())
 			err := decode.Decode(&r, src)
-			return fmt.Sprintf("err=%s pixels %016x", errText(err), fnv(img.Pix))
+			return fmt.Sprintf("err=%s pixels %016x segments %016x", errText(err), fnv(img.Pix), tz.Hash)
 		}}
 	case 2:
 		return c18Task{"decode->Encoder->Bytes" + suffix, func() string {
